@@ -72,6 +72,7 @@ ASC_TEXT = {
     (0x53, 0x02): "MEDIUM REMOVAL PREVENTED",
     (0x55, 0x04): "INSUFFICIENT REGISTRATION RESOURCES",
     (0x5D, 0x00): "FAILURE PREDICTION THRESHOLD EXCEEDED",
+    (0x5D, 0xFF): "FAILURE PREDICTION THRESHOLD EXCEEDED (FALSE)",      # T10-assigned although the qualifier is >= 80h
     # second batch, also written from the T10 list (asc-num.txt) from memory; one entry of the draft (5Eh/03h) was my error and was dropped
     (0x00, 0x03): 'SETMARK DETECTED',
     (0x00, 0x04): 'BEGINNING-OF-PARTITION/MEDIUM DETECTED',
